@@ -2,6 +2,16 @@
 # writes seeded/<id>/meta.json from run.json (produced by seedtest.sh) + the hand-written "needs" text
 import json, sys, os
 NEEDS = {
+ "C01-d": "Get's release closure captures the caller's key slice instead of the private copy: a finished background build deletes the key lock of whatever key the caller's buffer now holds (needs background mode, stale value, caller rewriting the buffer; overlapping builds need a third Get)",
+ "C02-d": "FailoverOf waiter branch returns the zero value read alongside the expiry error instead of the stale value (needs a build in flight and a waiter that reads an expired, servable entry)",
+ "C04-d": "ctxSync skips detachedContext when the caller's context has no deadline: a cancel-only context cancelled after Get returned reaches the background build",
+ "C05-d": "a build failure is not written to the failure cache when the caller's context is Done at that moment (needs a synchronous build whose caller gave up)",
+ "C07-d": "ShardedMap.Write keeps the caller's key slice when it overwrites an existing key: mutating the buffer afterwards changes the stored key",
+ "C08-d": "sharded backends' deleteExpired made two-phase (collect under RLock, delete by hash under Lock without re-checking): a Write completing in between is deleted by the janitor",
+ "C13-d": "Restore skips records that are already expired: stale entries (kept for Failover) are lost in transfer and the count is short",
+ "C14-d": "types hash memoised per HTTPTransfer with sync.Once: a type registered after the first transfer is ignored by later transfers of that instance",
+ "C15-d": "ErrNotFound from one deleter ends the loop over the deleters of that name: caches registered later keep the key and the key is dropped from the index",
+ "C16-d": "Invalidator.Invalidate writes the SkipInterval default before taking the mutex: races between the first concurrent calls (needs SkipInterval left at zero)",
  "C03-c": "FailoverOf only: ctxSync decides on 'has stale value' instead of the read error, so an entry expired beyond MaxStaleness is rebuilt in the background and the too-stale value is served with nil error (needs MaxStaleness>0, entry beyond it, SyncUpdate=false)",
  "C06-c": "detachedContext embeds the parent context: Deadline() of the caller leaks into the background build (needs stale value, SyncUpdate=false, caller context with a deadline)",
  "C08-c": "sharded backends with LRU/LFU: Write updates an existing entry in place; a concurrent Read of an expired entry that already holds the pointer reports the new value as stale (needs LFU/LRU, expired entry, overlapping Read and Write)",
